@@ -5,6 +5,7 @@ from fractions import Fraction
 import numpy as np
 
 import lib
+import translate_est
 from lib import qlit, qlist, qmat, coq_list, coq_bool, zlit
 
 IMPORTS = ("From Coq Require Import List ZArith QArith Bool.\nImport ListNotations.\n"
@@ -67,6 +68,7 @@ def run(chk):
     from causationentropy.core.information.entropy import poisson_entropy, poisson_joint_entropy
     rng = np.random.default_rng(chk.seed)
     chk.theorems()
+    lib.translator_lemma(chk, "poisson_joint_facts", translate_est.poisson_joint_facts, translate_est.coq_poisson_joint_facts, "")
     chk.trusted += ["Coq 8.16.1 kernel + vm_compute; Coq-Interval (BigZ floats, 80 bits) for the truncated entropy enclosure",
                     "harness/props/C13.py: spy on scipy.stats.poisson.pmf, float partial sums recomputed with the loop's own operations",
                     "scipy pmf / xlogy accuracy and float summation error are covered by the 1e-9 tolerance, not by proof",
@@ -156,7 +158,7 @@ def run(chk):
         chk.count("vector.calls")
         chk.count("vector.mixed_magnitude" if la.max() > 1e3 * max(la.min(), 1e-300) else "vector.similar")
     lib.correspond(chk, "termination_vs_model", IMPORTS, "list Q * list (list bool) * list (list (Z * Z)) * nat", "check_terms_case",
-                   tc, tp, lambda i: td[i], shard=4, jobs=15)
+                   tc, tp, lambda i: td[i], shard=20, jobs=10)
     lib.correspond(chk, "entropy_value_in_verified_enclosure", IMPORTS, "Z * Z * nat * Z * Z * Z * Z", "check_entropy_case",
                    ec, ep, lambda i: ed[i], shard=2, jobs=15, timeout=1500)
     # ---------------------------------------------------------------- joint entropy
